@@ -174,6 +174,11 @@ def syncRecsTo (cfg : Cfg N K) (flt : Fault N K) (rkeys : List K) (n dst : N) (s
   else if flt.lostReply = some dst then step cfg (.fail n) (step cfg (.rsend n dst batch false) s)
   else step cfg (.rdelete n batch) (step cfg (.rsend n dst batch true) s)
 
+def corruptFor (flt : Fault N K) (k : K) (i : Nat) : Option Content :=
+  match flt.corrupt with
+  | some (k', i', d) => if k' = k ∧ i' = i then some d else none
+  | none => none
+
 /-- `sendShardFile`: data chunks `i, i+1, …` (fuel = number still to send), then the final message -/
 def sendFrom (cfg : Cfg N K) (flt : Fault N K) (n : N) (k : K) : Nat → Nat → St N K → St N K
   | 0, i, s =>
@@ -182,10 +187,7 @@ def sendFrom (cfg : Cfg N K) (flt : Fault N K) (n : N) (k : K) : Nat → Nat →
   | fuel + 1, i, s =>
       if flt.failAt = some (k, i) then step cfg (.fail n) s
       else
-        let cor := match flt.corrupt with
-          | some (k', i', d) => if k' = k ∧ i' = i then some d else none
-          | none => none
-        sendFrom cfg flt n k fuel (i + 1) (step cfg (.fchunk n k cor) s)
+        sendFrom cfg flt n k fuel (i + 1) (step cfg (.fchunk n k (corruptFor flt k i)) s)
 
 def syncFile (cfg : Cfg N K) (flt : Fault N K) (n : N) (k : K) (s : St N K) : St N K :=
   if s.failed n ∨ cfg.fowner k = n then s else
